@@ -149,7 +149,7 @@ func allChecksRaw() []*Check {
 			ID:    "C13",
 			Files: files(filesProg, filesVFS, []string{"gtree/c13.go", "gtree/c13c.go", "gtree/c13c_native.go"}),
 			Quick: []Job{
-				gjf("C13.hist.n4", "VerifC13", 4, "C13.add", "C13.fn", "C13.idem", "C13.md", "C13.nil", "C13.end"),
+				gjf("C13.hist.n4", "VerifC13", 4, "C13.add", "C13.fn", "C13.idem", "C13.md", "C13.md.fails", "C13.nil", "C13.end"),
 				gjf("C13.hist.n3.dryrun", "VerifC13", 103, "C13.add", "C13.fresh", "C13.idem", "C13.end"),
 				gjf("C13.hist.n2.emptynames", "VerifC13", 12, "C13.add", "C13.fn", "C13.idem", "C13.end"),
 				{Name: "C13.conc.wyield", Pkg: "gtree", Entry: "VerifC13Conc", RealParse: true, RealScan: true, Race: true, RaceConfirm: "VerifC13Stress", Sched: "fifo-wyield", Expect: []string{"C13.conc.same", "C13.conc.noleak", "C13.conc.end"}},
@@ -161,7 +161,7 @@ func allChecksRaw() []*Check {
 				{Name: "C13.md.n3", Pkg: "gtree", Entry: "VerifC13Md", N: 3, RealParse: true, Expect: []string{"C13.md.nil", "C13.md.same", "C13.md.noleak", "C13.md.end"}},
 				{Name: "C13.md.n2.lifo", Pkg: "gtree", Entry: "VerifC13Md", N: 2, RealParse: true, Sched: "lifo", Expect: []string{"C13.md.nil", "C13.md.same", "C13.md.noleak", "C13.md.end"}},
 				{Name: "C13.conc.rnd8", Pkg: "gtree", Entry: "VerifC13Conc", RealParse: true, RealScan: true, Race: true, RaceConfirm: "VerifC13Stress", Sched: "rnd8", Expect: []string{"C13.conc.same", "C13.conc.noleak", "C13.conc.end"}},
-				gjf("C13.hist.n5", "VerifC13", 5, "C13.add", "C13.fn", "C13.idem", "C13.md", "C13.nil", "C13.end"),
+				gjf("C13.hist.n5", "VerifC13", 5, "C13.add", "C13.fn", "C13.idem", "C13.md", "C13.md.fails", "C13.nil", "C13.end"),
 				gjf("C13.hist.n4.dryrun", "VerifC13", 104, "C13.add", "C13.fresh", "C13.idem", "C13.end"),
 				gjf("C13.hist.n4.emptynames", "VerifC13", 14, "C13.add", "C13.fn", "C13.idem", "C13.end"),
 			},
@@ -248,7 +248,7 @@ func allChecksRaw() []*Check {
 			Quick: []Job{
 				gjf("C06.md.n3", "VerifC06", 3, "C06.nil", "C06.exact.count", "C06.exact.kind", "C06.untouched", "C06.inside", "C06.exists.err", "C06.exists.unchanged"),
 				gjf("C06.root.n3", "VerifC06Root", 3, "C06.root.nil", "C06.root.exact.count", "C06.root.exact.kind", "C06.root.untouched", "C06.root.exists.err", "C06.root.exists.unchanged"),
-				gjf("C06.fault.n3", "VerifC06Fault", 3, "C06.fault.reported/longname", "C06.fault.reported/targetisfile"),
+				gjf("C06.fault.n3", "VerifC06Fault", 3, "C06.fault.reported/longname", "C06.fault.reported/targetisfile", "C06.fault.reported/targetdangling"),
 				gjf("C06.dup.n3", "VerifC06Dup", 3, "C06.dup.kind", "C06.dup.count", "C06.dup.nil", "C06.dup.inside", "C06.dup.end"),
 				gjf("C06.dup.wide4", "VerifC06Dup", 14, "C06.dup.kind", "C06.dup.count", "C06.dup.nil", "C06.dup.inside", "C06.dup.end"),
 				gj("C06.bytes.e4n5", "VerifC06Bytes", 45, "C06.bytes.nil", "C06.bytes.file", "C06.bytes.dir", "C06.bytes.dir.made"),
@@ -256,7 +256,7 @@ func allChecksRaw() []*Check {
 			Thorough: []Job{
 				gjf("C06.md.n4", "VerifC06", 4, "C06.nil", "C06.exact.count", "C06.exact.kind", "C06.untouched", "C06.inside", "C06.exists.err", "C06.exists.unchanged"),
 				gjf("C06.root.n4", "VerifC06Root", 4, "C06.root.nil", "C06.root.exact.count", "C06.root.exact.kind", "C06.root.untouched", "C06.root.exists.err", "C06.root.exists.unchanged"),
-				gjf("C06.fault.n4", "VerifC06Fault", 4, "C06.fault.reported/longname", "C06.fault.reported/targetisfile"),
+				gjf("C06.fault.n4", "VerifC06Fault", 4, "C06.fault.reported/longname", "C06.fault.reported/targetisfile", "C06.fault.reported/targetdangling"),
 				gjf("C06.dup.n4", "VerifC06Dup", 4, "C06.dup.kind", "C06.dup.count", "C06.dup.nil", "C06.dup.inside", "C06.dup.end"),
 				gj("C06.bytes.e6n8", "VerifC06Bytes", 68, "C06.bytes.nil", "C06.bytes.file", "C06.bytes.dir", "C06.bytes.dir.made"),
 			},
@@ -265,18 +265,20 @@ func allChecksRaw() []*Check {
 		},
 		{
 			ID:    "C07",
-			Files: []string{"gtree/common.go", "gtree/vfs_native.go", "gtree/c07_sym.go", "gtree/c07_native.go", "gtree/c07.go"},
+			Files: []string{"gtree/common.go", "gtree/vfs_sym.go", "gtree/vfs_native.go", "gtree/c07_sym.go", "gtree/c07_native.go", "gtree/c07.go", "gtree/c07l.go"},
 			Quick: []Job{
 				gj("C07.1x3", "VerifC07", 13, "C07.reject", "C07.accept", "C07.dryrun.nothing"),
 				gj("C07.2x2", "VerifC07", 22, "C07.inside", "C07.reject", "C07.nothing", "C07.accept", "C07.dryrun.nothing"),
 				gj("C07.2x3", "VerifC07", 23, "C07.inside", "C07.reject", "C07.nothing", "C07.accept", "C07.dryrun.nothing"),
 				gj("C07.LPath.2x2", "VerifLPath", 22, "LPath.join", "LPath.valid", "LPath.fjoin", "LPath.fjoin.trailing"),
+				gjf("C07.links.n3", "VerifC07Links", 3, "C07.links.inside/nolink", "C07.links.inside/link", "C07.links.inside/dangling", "C07.links.accept", "C07.links.end"),
 			},
 			Thorough: []Job{
 				gj("C07.1x4", "VerifC07", 14, "C07.reject", "C07.accept", "C07.dryrun.nothing"),
 				gj("C07.3x2", "VerifC07", 32, "C07.inside", "C07.reject", "C07.nothing", "C07.accept", "C07.dryrun.nothing"),
 				gj("C07.2x4", "VerifC07", 24, "C07.inside", "C07.reject", "C07.nothing", "C07.accept", "C07.dryrun.nothing"),
 				gj("C07.LPath.3x3", "VerifLPath", 33, "LPath.join", "LPath.valid", "LPath.fjoin", "LPath.fjoin.trailing"),
+				gjf("C07.links.n4", "VerifC07Links", 4, "C07.links.inside/nolink", "C07.links.inside/link", "C07.links.inside/dangling", "C07.links.accept", "C07.links.end"),
 			},
 			Bounds: "byte level: trees of 1 node, 2 nodes (chain) and 3 nodes (chain, root with two children), every name an arbitrary ASCII byte string (no NUL/newline) of length 1..2/3 (quick) and 1..2 for 3 nodes, 1..4 for 2 nodes (thorough); entry points MkdirFromMarkdown, MkdirFromMarkdown+dry-run, MkdirFromRoot, MkdirFromRoot+dry-run, OutputFromMarkdown+dry-run (the CLI's route), MkdirFromMarkdown with the massive option (real pipeline under the FIFO policy) and with massive+dry-run, each with and without extension '.x'; real path.Join/Clean, filepath.Join, fs.ValidPath, strings code on symbolic bytes. os.Stat answers 'exists' for the target directory itself and 'does not exist' otherwise; os.MkdirAll/os.Create record their argument. L-path: Join of 2..3 single-element names is concatenation with '/'. Outside: non-ASCII names, symlinks.",
 			Assume: append([]string{parseContract, "os.Stat -> not exist; os.MkdirAll/Create record the path and succeed (byte-level recorder); lexical confinement only"}, commonAssume...),
@@ -402,6 +404,7 @@ func allChecksRaw() []*Check {
 				{Name: "C17.names.2x2", Pkg: "gtree", Entry: "VerifC17Names", N: 22, Wasm: true, Expect: []string{"C17.acc.names/text", "C17.acc.names/json", "C17.acc.names/dryrun", "C17.out.names/text", "C17.out.names/json", "C17.out.names/dryrun"}},
 				{Name: "C17.long.full", Pkg: "gtree", Entry: "VerifC17Long", N: 1, Wasm: true, RealParse: true, RealScan: true, Expect: []string{"C17.acc.long/text", "C17.out.long/text", "C17.long.end"}},
 				{Name: "C17.units", Pkg: "gtree", Entry: "VerifC17Units", N: 0, Wasm: true, RealParse: true, Expect: []string{"C17.acc.units/text", "C17.out.units/text", "C17.units.end"}},
+				{Name: "C17.lines.3", Pkg: "gtree", Entry: "VerifC17Lines", N: 3, Wasm: true, RealParse: true, RealScan: true, Expect: []string{"C17.lines.nil/text", "C17.lines.same/text", "C17.lines.same/json", "C17.lines.same/dryrun", "C17.lines.end"}},
 			},
 			Thorough: []Job{
 				{Name: "C17.any.n5", Pkg: "gtree", Entry: "VerifC17", N: 5, FSModel: true, Wasm: true, Expect: []string{"C17.acc.any/text", "C17.acc.any/json", "C17.acc.any/dryrun", "C17.out.any/text", "C17.out.any/json", "C17.out.any/dryrun"}},
@@ -409,6 +412,7 @@ func allChecksRaw() []*Check {
 				{Name: "C17.names.3x2", Pkg: "gtree", Entry: "VerifC17Names", N: 32, Wasm: true, Expect: []string{"C17.acc.names/text", "C17.acc.names/json", "C17.acc.names/dryrun", "C17.out.names/text", "C17.out.names/json", "C17.out.names/dryrun"}},
 				{Name: "C17.names.2x3", Pkg: "gtree", Entry: "VerifC17Names", N: 23, Wasm: true, Expect: []string{"C17.acc.names/text", "C17.acc.names/json", "C17.acc.names/dryrun", "C17.out.names/text", "C17.out.names/json", "C17.out.names/dryrun"}},
 				{Name: "C17.long.full", Pkg: "gtree", Entry: "VerifC17Long", N: 1, Wasm: true, RealParse: true, RealScan: true, Expect: []string{"C17.acc.long/text", "C17.out.long/text", "C17.long.end"}},
+				{Name: "C17.lines.4", Pkg: "gtree", Entry: "VerifC17Lines", N: 4, Wasm: true, RealParse: true, RealScan: true, Expect: []string{"C17.lines.nil/text", "C17.lines.same/text", "C17.lines.same/json", "C17.lines.same/dryrun", "C17.lines.end"}},
 			},
 			Bounds: "documents of N rows (quick 4, thorough 5): item rows at any depth up to two levels below the previous row (level jumps, indented first row), at most one blank / no-bullet / empty-text row at any position; and well-formed forests of N rows (quick 4, thorough 6); options: text with 4 opaque branch strings, JSON record, dry-run report with 0..1 opaque extension; both variants compiled into one SSA program (the tinywasm file set regenerated from /repo's working tree on every run). Byte level (real path code of both variants, no path contracts): forests of 2 rows x names of 1..2 arbitrary ASCII bytes (quick), 3 rows x 1..2 bytes and 2 rows x 1..3 bytes (thorough), so '.', '..' and names containing '/' occur as root and as child; text, JSON, dry-run with and without the extension '.x'. Notation across blocks (real parser in both variants): two root blocks whose indented rows use 1..4 blanks or a tab per level each, list or # roots: same decision, same text. Line limit (real bufio.Scanner in both variants): a root row of 65535 bytes (fits), 65536 bytes (does not) or 131068 bytes, one arbitrary name byte, with or without a short second root: same decision, same text. Outside: YAML/TOML (absent from the tinywasm variant), cmd/gtree-wasm's JavaScript glue.",
 			Assume: append([]string{parseContract, pathContract, encStub, "the tinywasm variant is type-checked and executed as package gtree/zz_verif_wasm with build tag verif standing in for tinywasm (file selection by the original constraints)"}, commonAssume...),
